@@ -9,7 +9,7 @@ def step(rnd, pool, shadow, log):
     """perform one random operation; returns None or a failure string"""
     names = list(pool)
     a = rnd.choice(names)
-    op = rnd.choice(['slice', 'slice', 'empty-slice', 'add', 'add', 'iadd', 'setitem', 'setitem-empty', 'pad-inplace', 'pad-copy', 'shift-inplace', 'shift-copy',
+    op = rnd.choice(['slice', 'slice', 'empty-slice', 'add', 'add', 'iadd', 'setint', 'setitem', 'setitem-empty', 'pad-inplace', 'pad-copy', 'shift-inplace', 'shift-copy',
                      'copy', 'hash-lookup', 'eq', 'foreign-operand', 'iter-zip', 'iter-nested', 'value', 'bitwise', 'invert', 'chunks', 'new', 'observe-mutate-observe', 'observe-mutate-observe'])
     A, sa = pool[a], shadow[a]
     n = len(sa)
@@ -42,6 +42,15 @@ def step(rnd, pool, shadow, log):
             vb = shadow[b]
             A[s:e] = pool[b]
             shadow[a] = sa[:s] + vb + sa[e:]
+        elif op == 'setint':
+            # b[i] = v with an int index replaces ONE bit by the bits of v (any number of them): the buffer may grow or shrink by it
+            if n == 0:
+                return None
+            b = rnd.choice(names)
+            i_ = rnd.randrange(n)
+            vb = shadow[b]
+            A[i_] = pool[b]
+            shadow[a] = sa[:i_] + vb + sa[i_ + 1:]
         elif op == 'pad-inplace':
             A.pad(rnd.choice([L, R]), inplace=True)
         elif op == 'pad-copy':
